@@ -49,6 +49,9 @@ def gen(ctx, family, depth=0, timeout=900, module="Gen_Sender", extra_consts="")
     return behs
 
 
+SENDER_LIMIT_MS = int(os.environ.get("VERIF_SENDER_LIMIT_MS", "120000"))
+
+
 def sample(behs, n, seed):
     if n is None or len(behs) <= n:
         return list(behs)
@@ -63,8 +66,46 @@ def _one_chunk(ctx, idx, chunk, label, monitor, harness_cmd, post):
     with open(inp, "w") as f:
         for b in chunk:
             f.write(json.dumps(b, separators=(",", ":")) + "\n")
-    harness([harness_cmd, "--in", inp, "--out", raw], timeout=3000)
+    hangs = []
+    if harness_cmd != "replay-sender":
+        harness([harness_cmd, "--in", inp, "--out", raw], timeout=3000)
+    else:
+        # the harness exits with 3 when one behaviour exceeds the time limit (watchdog): keep the finished behaviours,
+        # report the hanging one and resume after it
+        start, parts = 0, []
+        for attempt in range(20):
+            part = raw + ".%d" % attempt
+            p = harness([harness_cmd, "--in", inp, "--out", part, "--from", start, "--limit_ms", SENDER_LIMIT_MS], timeout=3000, check=False)
+            lines = open(part).read().splitlines() if os.path.exists(part) else []
+            if os.path.exists(part):
+                os.remove(part)
+            if p.returncode == 0:
+                parts.append(lines)
+                break
+            if p.returncode == 3 and os.path.exists(part + ".timeout"):
+                t = json.load(open(part + ".timeout"))
+                os.remove(part + ".timeout")
+                hangs.append(t)
+                cut = len(lines)
+                for i, ln in enumerate(lines):
+                    try:
+                        j = json.loads(ln)
+                    except Exception:
+                        cut = i
+                        break
+                    if j.get("ev") == "reset" and j.get("beh") == t["beh"]:
+                        cut = i
+                        break
+                parts.append(lines[:cut])
+                start = next(i for i, b in enumerate(chunk) if b["beh"] == t["beh"]) + 1
+                continue
+            raise ToolError("replay-sender failed (%d): %s" % (p.returncode, p.stderr[-2000:]))
+        with open(raw, "w") as g:
+            for lines in parts:
+                for ln in lines:
+                    g.write(ln + "\n")
     stats = post(raw, tr)
+    stats["hangs"] = hangs
     res = tlc(ctx, monitor, workers=1, trace=tr, timeout=900, env={"JAVA_TOOL_OPTIONS": JAVA_OPTS_TRACE + " -Xmx3g"})
     tlc_must_pass(ctx, res, "%s on %s chunk %d" % (monitor, label, idx))
     conf = None
@@ -118,6 +159,10 @@ def run_behaviours(ctx, behs, label, monitor="Mon_Sender", harness_cmd="replay-s
                         c["first_drifts"].append(dd)
                 if stats["conf"].get("error"):
                     c["errors"].append(stats["conf"]["error"])
+            for h in stats.get("hangs", []):
+                ctx.violations.append({"property": "C12", "what": "sender-call-did-not-return-in-bounded-time",
+                                       "beh": h["beh"], "witness": h, "source": label,
+                                       "behaviour": behs[h["beh"]] if 0 <= h["beh"] < len(behs) else None})
             for v in res["viol"]:
                 v = dict(v)
                 bid = v.get("beh")
@@ -137,7 +182,7 @@ def run_behaviours(ctx, behs, label, monitor="Mon_Sender", harness_cmd="replay-s
 def own_and_panics(ctx, prop):
     """A sender panic counts against the property under check, whatever the monitor tagged it with."""
     for v in ctx.violations:
-        if v.get("what") == "sender-panic":
+        if v.get("what") in ("sender-panic", "sender-call-did-not-return-in-bounded-time"):
             v["property"] = prop
 
 
@@ -199,6 +244,10 @@ def mc_sender(ctx, variant, maxops, expect=None):
             bads.update(re.findall(r'"([a-z][a-z0-9-]+)"', m_.group(1)))
         j = {"name": "MC_Sender[variant=%s,MaxOps=%d,4 cfgs]" % (variant, maxops), "states": r["distinct"], "generated": r["generated"],
              "wall_s": r["wall_s"], "completed_without_violation": r["ok"], "reported": sorted(bads)}
+        if not r["ok"] and not bads:
+            # neither completed nor a monitor conjunct reported: TLC could not evaluate the specification
+            raise ToolError("MC_Sender[%s] failed without a monitor report:\n%s" % (variant, "\n".join(
+                l for l in r["stdout"].splitlines() if "rror" in l or "Attempted" in l or "exception" in l)[:800]))
         if (variant == "ok" and r["ok"]) or (variant != "ok" and not r["ok"]):
             json.dump(j, open(cpath, "w"))
     ctx.mc.append(j)
